@@ -715,6 +715,8 @@ class vm_core {
     Real real_;
     std::atomic<int> sh_owner_{0};
     std::atomic<int> sh_shared_{0};
+    int sh_depth_ = 0;  // recursive mutex types: nesting depth of the owner (touched by the owner only)
+    static constexpr bool recursive_ = std::is_same<Real, std::recursive_mutex>::value || std::is_same<Real, std::recursive_timed_mutex>::value;
 
     vm_core() = default;
     vm_core(const vm_core&) = delete;
@@ -731,6 +733,7 @@ class vm_core {
             sh_shared_.fetch_add(1, std::memory_order_relaxed);
         } else {
             sh_owner_.store(c.uid, std::memory_order_relaxed);
+            if (recursive_) sh_depth_++;
         }
         c.held.push_back(Held{this, shared});
         rt.global_held.fetch_add(1, std::memory_order_relaxed);
@@ -756,7 +759,7 @@ class vm_core {
         rt.global_held.fetch_sub(1, std::memory_order_relaxed);
         if (stale_active(c)) stale_on_unlock(c, this);
         if (shared) sh_shared_.fetch_sub(1, std::memory_order_relaxed);
-        else sh_owner_.store(0, std::memory_order_relaxed);
+        else if (!recursive_ || --sh_depth_ == 0) sh_owner_.store(0, std::memory_order_relaxed);
     }
     bool real_try(bool shared)
     {
@@ -799,6 +802,7 @@ class vm_core {
                 bool free = shared ? (sh_owner_.load(std::memory_order_relaxed) == 0) :
                                      (sh_owner_.load(std::memory_order_relaxed) == 0 &&
                                       sh_shared_.load(std::memory_order_relaxed) == 0);
+                if (recursive_ && !shared && sh_owner_.load(std::memory_order_relaxed) == c.uid) free = true;  // re-entry by the owner
                 if (free) {
                     if (!real_try(shared)) harness_error("serial: shadow says free but real try_lock failed");
                     shadow_acquire(c, shared);
@@ -922,6 +926,22 @@ class verif_mutex: public vrf::vm_core<std::mutex> {
     void unlock() { release(false); }
 };
 class verif_timed_mutex: public vrf::vm_core<std::timed_mutex> {
+  public:
+    void lock() { acquire(false, vrf::LM_BLOCK, 0); }
+    bool try_lock() { return acquire(false, vrf::LM_TRY, 0); }
+    void unlock() { release(false); }
+    template<class R, class P>
+    bool try_lock_for(const std::chrono::duration<R, P>& d) { return acquire(false, vrf::LM_TIMED, deadline_from(d)); }
+    template<class C, class D>
+    bool try_lock_until(const std::chrono::time_point<C, D>& tp) { return acquire(false, vrf::LM_TIMED, deadline_from(tp)); }
+};
+class verif_recursive_mutex: public vrf::vm_core<std::recursive_mutex> {
+  public:
+    void lock() { acquire(false, vrf::LM_BLOCK, 0); }
+    bool try_lock() { return acquire(false, vrf::LM_TRY, 0); }
+    void unlock() { release(false); }
+};
+class verif_recursive_timed_mutex: public vrf::vm_core<std::recursive_timed_mutex> {
   public:
     void lock() { acquire(false, vrf::LM_BLOCK, 0); }
     bool try_lock() { return acquire(false, vrf::LM_TRY, 0); }
@@ -1367,6 +1387,8 @@ namespace this_thread {
 #define atomic_size_t verif_atomic_size_t
 #define mutex verif_mutex
 #define timed_mutex verif_timed_mutex
+#define recursive_mutex verif_recursive_mutex
+#define recursive_timed_mutex verif_recursive_timed_mutex
 #define shared_mutex verif_shared_mutex
 #define shared_timed_mutex verif_shared_timed_mutex
 #define condition_variable verif_condition_variable
